@@ -349,6 +349,37 @@ def run_multi(rec, tier, seed):
                 rec.violation("extract_loci:custom_alphabet_wrong", dict(fn="extract_loci", alphabet="TGCA"))
         else:
             rec.violation("extract_loci:custom_alphabet_raises", dict(fn="extract_loci", alphabet="TGCA"), observed=X)
+        # call history on ONE path: the FASTA (and bigWig) at a path is replaced by a different genome between two calls; the second call
+        # must return what the file contains now (an index or handle kept from the first call must not be reused)
+        import pyBigWig
+        import time as _time
+        hp = os.path.join(d, "hist.fa")
+        genomes = [[("h1", "ACGTACGTACGTTTGACC"), ("h2", "GGGCATTA")], [("h1", "TTGACCA"), ("h2", "CATCATGGATTACAGGAT")], [("h1", "ACGTACGTACGTTTGACC"), ("h2", "GGGCATTA")]]
+        for gi, g in enumerate(genomes):
+            with open(hp, "w") as fh:
+                for n_, s_ in g:
+                    fh.write(">%s\n%s\n" % (n_, s_))
+            t_ = _time.time() + 10 * (gi + 1)
+            os.utime(hp, (t_, t_))                       # strictly newer than whatever the previous call may have written next to it
+            rows = [(n_, st_, st_ + 2) for n_, s_ in g for st_ in range(0, len(s_) - 1, 3) if st_ + 1 + 2 != len(s_)]    # no locus touching the end
+            dfh = pandas.DataFrame(rows, columns=["chrom", "start", "end"])
+            st, Xh = call(extract_loci, dfh, hp, in_window=4)
+            exp = []
+            for (n_, a_, b_) in rows:
+                s_ = dict(g)[n_]
+                mid = a_ + (b_ - a_) // 2
+                if mid - 2 < 0 or mid + 2 >= len(s_):
+                    if mid - 2 >= 0 and mid + 2 == len(s_):
+                        exp = None      # a touching locus: either outcome allowed -> skip this genome's comparison
+                        break
+                    continue
+                exp.append(_ohe_np(s_[mid - 2:mid + 2]))
+            rec.case(1, 1)
+            case = dict(fn="extract_loci", history="FASTA at the same path rewritten", step=gi, genome=g)
+            if exp is None:
+                continue
+            if st != "ok" or tuple(Xh.shape) != (len(exp), 4, 4) or not numpy.array_equal(Xh.numpy(), numpy.stack(exp)):
+                rec.violation("extract_loci:stale_file_state_across_calls", case, expected=len(exp), observed=Xh if st != "ok" else list(Xh.shape))
         rec.sample(dict(kind="multi", locus_sets=[[len(S) for S in c] for c in sets_cfgs], chroms="None / subsets", n_loci="None,1,2,4",
                         counts="none/min/max at the exact window sum"))
     finally:
